@@ -13,7 +13,7 @@ RULE = ('cases = (i) cutoff+dr: every decimal step with <= 3 decimals in [0.001,
         '(iv) rejection: all three, step alone, zero / negative / non-numeric values of all six keys; (v) defaults for every subset of omitted keys; '
         '(vi) end-to-end: every tabulation target x (step, count, cutoff) triples incl. float-awkward ones, rows counted and spacing measured with the '
         'independent readers; all through the public ConfigParser / Configuration route; every lattice point evaluated; non-trivial = every pair')
-RULE += "; steps with 7 decimals; documented target synonyms; the same triples through the potable command line into a pre-filled OUTPUT_FILE; zero / nan / inf / 1e-320 grid values and all-three-with-a-zero rejected; the tabulation object's nr / cutoff / dr (nrho / cutoff_rho / drho) properties describe the written grid; (cutoff, nr) row-count sweep over every target; the two grids stated independently: every ordered pair of 6 different (step, rows, cutoff) triples for r and rho, each stated 3 ways, for every many-body target"
+RULE += "; steps with 7 decimals; documented target synonyms; the same triples through the potable command line into a pre-filled OUTPUT_FILE; zero / nan / inf / 1e-320 grid values and all-three-with-a-zero rejected; the tabulation object's nr / cutoff / dr (nrho / cutoff_rho / drho) properties describe the written grid; (cutoff, nr) row-count sweep over every target; the two grids stated independently: every ordered pair of 8 different (step, rows, cutoff) triples (two pairs share the step and differ in rows) for r and rho, each stated 3 ways, for every many-body target; a step alone for one grid next to every acceptable way of stating the other grid is rejected"
 ASSUMPTIONS = [
     'decimal text is rendered as the shortest decimal literal (what a user types); k*step is computed exactly with decimal arithmetic',
     'cutoff=(nr-1)*dr is compared as a float product within 2 ulp; dr=cutoff/(nr-1) is observed through the written table',
@@ -64,6 +64,10 @@ def cases(tier):
         bad.append(('all-three', {nm[0]: '11', nm[1]: '0.1', nm[2]: '1.0'}))
         bad.append(('all-three-inconsistent', {nm[0]: '12', nm[1]: '0.1', nm[2]: '1.0'}))
         bad.append(('step-alone', {nm[1]: '0.1'}))
+        # ... also when the OTHER grid is given (every presence pattern of its three options that is itself acceptable or empty)
+        om = ('nrho', 'drho', 'cutoff_rho') if grid == 'r' else ('nr', 'dr', 'cutoff')
+        for other in ({om[0]: '21'}, {om[2]: '4.0'}, {om[0]: '21', om[1]: '0.2'}, {om[0]: '21', om[2]: '4.0'}, {om[1]: '0.2', om[2]: '4.0'}):
+            bad.append(('step-alone-next-to-%s' % '+'.join(sorted(other)), dict(other, **{nm[1]: '0.1'})))
         for key in nm:
             for val in ('0', '-1', '-0.5', 'abc', '1e', ''):
                 d = {nm[0]: '11', nm[2]: '1.0'} if key != nm[1] else {nm[1]: '0.1', nm[0]: '11'}
@@ -117,7 +121,8 @@ def cases(tier):
                     # the same through the potable command line into an OUTPUT_FILE that already holds a longer, older tabulation
                     out.append(dict(kind='e2e', target=tgt, step=st, n=nn, cutoff=cut, combo=combo, via='potable'))
     # (vi-a2) the two grids are independent: different (step, rows, cutoff) triples for r and rho, every ordered pair of 6 triples, 3 ways of stating each
-    t6 = [('0.1', 4, '0.3'), ('0.05', 13, '0.6'), ('0.2', 16, '3.0'), ('0.3', 11, '3.0'), ('0.025', 81, '2.0'), ('0.5', 3, '1.0')]
+    t6 = [('0.1', 4, '0.3'), ('0.05', 13, '0.6'), ('0.2', 16, '3.0'), ('0.3', 11, '3.0'), ('0.025', 81, '2.0'), ('0.5', 3, '1.0'),
+          ('0.1', 7, '0.6'), ('0.05', 5, '0.2')]          # (... the same step for both grids with different row counts)
     for tgt in TARGETS:
         if tgt in ('LAMMPS', 'DLPOLY', 'GULP', 'excel'):
             continue
@@ -232,7 +237,7 @@ def run_reject(case):
     viol = []
     grid = case['grid']
     opts = dict(case['opts'])
-    tgt = 'LAMMPS' if grid == 'r' else 'setfl'
+    tgt = 'LAMMPS' if (grid == 'r' and 'next-to' not in case['name']) else 'setfl'
     try:
         t = parse(opts)
         vals = (t.nr, t.cutoff, t.nrho, t.cutoff_rho)
